@@ -35,12 +35,8 @@ func fuzzTarget(f *testing.F, name string) {
 		f.Fatalf("harness: unknown target %q", name)
 	}
 	currentTest = "TestProp" + f.Name()
-	for _, s := range tg.seeds() {
+	for _, s := range fuzzSeeds(tg) {
 		f.Add(s)
-	}
-	g := rapid.Custom(tg.gen)
-	for i := 0; i < 256; i++ {
-		f.Add(g.Example(i)) // deterministic structure-aware examples: valid, mutated and random cases
 	}
 	child := os.Getenv(fuzzChildEnv) != ""
 	if child && inFuzzWorker() {
@@ -75,7 +71,19 @@ func fuzzTarget(f *testing.F, name string) {
 	})
 }
 
+// fuzzSeeds is the seed corpus in f.Add order: hostile constants and valid packets, then 256 deterministic
+// structure-aware rapid examples (valid, mutated and random cases).
+func fuzzSeeds(tg *target) [][]byte {
+	o := append([][]byte(nil), tg.seeds()...)
+	g := rapid.Custom(tg.gen)
+	for i := 0; i < 256; i++ {
+		o = append(o, g.Example(i))
+	}
+	return o
+}
+
 var (
+	reSeedNo  = regexp.MustCompile(`failure while testing seed corpus entry: \S+/seed#(\d+)`)
 	reExecs   = regexp.MustCompile(`execs: (\d+)`)
 	reCrasher = regexp.MustCompile(`Failing input written to (\S+)`)
 	reViol    = regexp.MustCompile(`VIOLATION sig=\S+[^\n]*`)
@@ -188,6 +196,7 @@ func nativeFuzzOnce(t *testing.T, bin, fuzzName, targetName, dur string, d time.
 	for _, f := range old {
 		_ = os.Remove(f)
 	}
+	_ = os.Remove(filepath.Join(out, "watchdog-"+targetName+".json"))
 	ctx, cancel := context.WithTimeout(context.Background(), d+4*time.Minute)
 	defer cancel()
 	cmd := exec.CommandContext(ctx, bin, "-test.run=^$", "-test.fuzz=^"+fuzzName+"$", "-test.fuzztime="+dur,
@@ -263,9 +272,23 @@ func nativeFuzzOnce(t *testing.T, bin, fuzzName, targetName, dur string, d time.
 		kept := keep("violations")
 		return "violation", fmt.Sprintf("VIOLATION sig=C09/%s/process-death: fuzz worker died in the code under test; last input kept as %s\n%s\n%s", targetName, kept, crash, tail)
 	}
-	if crasherRaw != nil && (strings.Contains(text, "C09 watchdog") || strings.Contains(text, "hung or terminated unexpectedly")) {
-		// a worker died (watchdog or otherwise): confirm the recorded input in isolation
-		kept := keep("unconfirmed")
+	wf := filepath.Join(out, "watchdog-"+targetName+".json")
+	if !fileExists(wf) && crasherRaw == nil {
+		// died on a seed corpus entry: the engine names it by its f.Add index
+		if m := reSeedNo.FindStringSubmatch(text); m != nil {
+			if n, _ := strconv.Atoi(m[1]); n < len(fuzzSeeds(targets[targetName])) {
+				wf = filepath.Join(out, "unconfirmed", t.Name()+"__seed"+m[1]+".json")
+				writeCaseFile(wf, caseFile{Target: targetName, Hex: hex.EncodeToString(steerFuzz(targets[targetName], fuzzSeeds(targets[targetName])[n])), Note: "seed corpus entry " + m[1]})
+			}
+		}
+	}
+	if fileExists(wf) || (crasherRaw != nil && strings.Contains(text, "hung or terminated unexpectedly")) {
+		// a worker died (our watchdog, the engine's own 10 s "deadlocked!" timer, or otherwise): confirm the
+		// recorded input in isolation
+		kept := wf
+		if !fileExists(wf) {
+			kept = keep("unconfirmed")
+		}
 		ienv := append(append([]string{}, env...), isoEnv+"="+targetName+":"+kept, isoOriginEnv+"="+t.Name())
 		ictx, icancel := context.WithTimeout(context.Background(), 3*time.Minute)
 		defer icancel()
@@ -273,7 +296,7 @@ func nativeFuzzOnce(t *testing.T, bin, fuzzName, targetName, dur string, d time.
 		ic.Dir, ic.Env = out, ienv
 		ib, _ := ic.CombinedOutput()
 		if v := reViol.FindString(string(ib)); v != "" {
-			return "violation", fmt.Sprintf("%s\nnative fuzz crasher kept as %s\n%s", v, keep("violations"), string(ib))
+			return "violation", fmt.Sprintf("%s\n%s", v, string(ib)) // the isolated run wrote the violation file
 		}
 		return "inconclusive", fmt.Sprintf("native fuzz worker of %s died and the recorded input (%s) did not reproduce in isolation\nworker crash report: %q\n%s\n%s", fuzzName, kept, crash, string(ib), tail)
 	}
